@@ -797,7 +797,9 @@ def c08_part(ctx, thorough):
                "whose printed text shows no register (neg [rbx]) is the width of the register alternative of its r/m operand; "
                "'jmpshort' is read as jmp with an 8-bit displacement, 'call *reg' as call reg")
     if mine is None:
-        laws(ctx, ["fld", "tab", "enc", "adr", "kat"], thorough)
+        # (-coverage more than triples the cost of the constant instance tables: the per-action counts are recorded in the
+        # thorough tier; the quick run is bounded to < 10^4 states)
+        laws(ctx, ["fld", "tab", "enc", "adr", "kat"], thorough, coverage=thorough)
     recs, skipped = enc_records("C08", _rng(ctx, 64), thorough)
     agg = {}
     for k, n in skipped.items():
